@@ -7,6 +7,7 @@
    the chains themselves (user code, any operators) and the world are universally quantified. *)
 From Coq Require Import List ZArith Lia.
 From Join Require Import Tok Names Ast Comp Std Denote Spec Leaves SpecProps.
+From Join Require SpecSpawnProps.
 From Join Require SpecSpawn.
 From Join Require SpecPositions.
 From Join Require ThreadsProps.
@@ -309,3 +310,43 @@ Theorem spawn_result_positions :
   forall v : Comp.val, Threads.result_of 0 s = Some (Some v) -> SpecProps.ResultOK p T (Comp.DV v).
 Proof. exact (@SpecSpawn.spawn_result_positions). Qed.
 Print Assumptions spawn_result_positions.
+
+(* OBLIGATION try_spawn_result_positions *)
+(* try_join_spawn!, whole program, every schedule *)
+Theorem try_spawn_result_positions :
+  forall (h : Comp.ev -> option Comp.val) (W : Type)
+    (handle : option String.string -> Comp.ev -> W -> option Comp.val * W),
+  SpecSpawn.stateless h W handle ->
+  forall
+    (msem : String.string ->
+            option (list Tok.operand) -> Comp.dval -> list Comp.dval -> Comp.comp Comp.dval)
+    (dotsem : Tok.operand -> list (String.string * option Comp.val) -> Comp.dval -> Comp.comp Comp.dval)
+    (callsem : Comp.val -> list Comp.dval -> Comp.comp Comp.dval)
+    (awaitsem : Comp.val -> Comp.comp Comp.val),
+  SpecCode.user_codeC (@SpecSpawn.ucode) msem dotsem callsem awaitsem ->
+  forall p : Spec.sprog,
+  Ast.is_async (Spec.sp_cfg p) = false ->
+  forall (nm : option String.string) (w : W) (T : nat -> nat -> Comp.dval -> Prop) 
+    (fam : bool) (sched : list nat),
+  Ast.is_try (Spec.sp_cfg p) = true ->
+  Spec.sp_handler p = None ->
+  (forall (sn : list (String.string * option Comp.val)) (cp : Spec.caps) (k : nat) 
+     (st : Spec.state) (b : nat),
+   b < Datatypes.length (Spec.sp_trees p) ->
+   k < Spec.depth p b -> Leaves.leaves (Spec.chain msem dotsem callsem p sn cp k st b) (T b k)) ->
+  (forall (b k : nat) (d : Comp.dval),
+   b < Datatypes.length (Spec.sp_trees p) ->
+   k < Spec.depth p b -> T b k d -> exists w0 v : Comp.val, d = Comp.DV w0 /\ SpecProps.wellf fam w0 v) ->
+  (forall b : nat, b < Datatypes.length (Spec.sp_trees p) -> 1 <= Spec.depth p b) ->
+  forall v : Comp.val,
+  Threads.result_of 0
+    (Threads.run_thr handle sched
+       (Threads.init nm
+          (Comp.bind (Spec.spec msem dotsem callsem awaitsem (SpecCode.with_spawn true p))
+             (fun d : Comp.dval => Comp.to_val d)) w)) = Some (Some v) ->
+  SpecPositions.TryResultOK p T fam (Comp.DV v) /\
+  (forall x : Comp.val, v = SpecProps.wrapf fam x -> SpecPositions.PayloadsOK p T fam x) /\
+  (SpecProps.failf fam v = true ->
+   exists b k : nat, b < Datatypes.length (Spec.sp_trees p) /\ k < Spec.depth p b /\ T b k (Comp.DV v)).
+Proof. exact (@SpecSpawnProps.try_spawn_result_positions). Qed.
+Print Assumptions try_spawn_result_positions.
